@@ -73,17 +73,7 @@ func (k KnockUDPPort) NewGroup() *KnockGroup {
 		SourceIP:                k.SourceIP,
 		DestinationIP:           k.DestinationIP,
 		Count:                   0,
-		Knocks: NewUniqueSet(func(v1, v2 interface{}) bool {
-			if _, ok := v1.(KnockUDPPort); !ok {
-				return false
-			}
-			if _, ok := v2.(KnockUDPPort); !ok {
-				return false
-			}
-
-			k1, k2 := v1.(KnockUDPPort), v2.(KnockUDPPort)
-			return k1.DestinationPort == k2.DestinationPort
-		}),
+		Knocks:                  NewUniqueSet(knockEqual),
 	}
 }
 
@@ -107,17 +97,7 @@ func (k KnockTCPPort) NewGroup() *KnockGroup {
 		DestinationIP:           k.DestinationIP,
 		Protocol:                ProtocolTCP,
 		Count:                   0,
-		Knocks: NewUniqueSet(func(v1, v2 interface{}) bool {
-			if _, ok := v1.(KnockTCPPort); !ok {
-				return false
-			}
-			if _, ok := v2.(KnockTCPPort); !ok {
-				return false
-			}
-
-			k1, k2 := v1.(KnockTCPPort), v2.(KnockTCPPort)
-			return k1.DestinationPort == k2.DestinationPort
-		}),
+		Knocks:                  NewUniqueSet(knockEqual),
 	}
 }
 
@@ -140,25 +120,32 @@ func (k KnockICMP) NewGroup() *KnockGroup {
 		DestinationIP:           k.DestinationIP,
 		Count:                   0,
 		Protocol:                ProtocolICMP,
-		Knocks: NewUniqueSet(func(v1, v2 interface{}) bool {
-			if _, ok := v1.(KnockICMP); !ok {
-				return false
-			}
-			if _, ok := v2.(KnockICMP); !ok {
-				return false
-			}
-
-			_, _ = v1.(KnockICMP), v2.(KnockICMP)
-			return true
-		}),
+		Knocks:                  NewUniqueSet(knockEqual),
 	}
+}
+
+// knockEqual reports whether two knocks are the same probe: same protocol and,
+// for tcp and udp, same destination port.
+func knockEqual(v1, v2 interface{}) bool {
+	switch k1 := v1.(type) {
+	case KnockTCPPort:
+		k2, ok := v2.(KnockTCPPort)
+		return ok && k1.DestinationPort == k2.DestinationPort
+	case KnockUDPPort:
+		k2, ok := v2.(KnockUDPPort)
+		return ok && k1.DestinationPort == k2.DestinationPort
+	case KnockICMP:
+		_, ok := v2.(KnockICMP)
+		return ok
+	}
+
+	return false
 }
 
 func (c *Canary) knockDetector(ctx context.Context) {
 	knocks := NewUniqueSet(func(v1, v2 interface{}) bool {
 		k1, k2 := v1.(*KnockGroup), v2.(*KnockGroup)
-		return k1.Protocol == k2.Protocol &&
-			bytes.Equal(k1.SourceHardwareAddr, k2.SourceHardwareAddr) &&
+		return bytes.Equal(k1.SourceHardwareAddr, k2.SourceHardwareAddr) &&
 			bytes.Equal(k1.DestinationHardwareAddr, k2.DestinationHardwareAddr) &&
 			k1.SourceIP.Equal(k2.SourceIP) &&
 			k1.DestinationIP.Equal(k2.DestinationIP)
